@@ -177,6 +177,8 @@ def answer(line, timeout=4):
     old = signal.signal(signal.SIGALRM, _alarm)
     # repeating timer: if the first Hang is swallowed by a broad `except` in the code under test,
     # the next tick raises again
+    if f[0] == "hist":
+        timeout = 120          # loads are traced event by event
     signal.setitimer(signal.ITIMER_REAL, timeout, 1.0)
     try:
         return fn(f)
